@@ -18,6 +18,9 @@ pub struct Parser<'a> {
     /// This is used in for-loop init expressions where 'in' separates
     /// the variable from the iterable (for x in obj).
     no_in: bool,
+    /// Set by parse_class_member when the member it parsed was declared `abstract`
+    /// (such members are declarations only and are dropped from the class body).
+    last_member_abstract: bool,
 }
 
 impl<'a> Parser<'a> {
@@ -29,6 +32,7 @@ impl<'a> Parser<'a> {
             current,
             previous: Token::eof(0, 1, 1),
             no_in: false,
+            last_member_abstract: false,
         }
     }
 
@@ -678,6 +682,7 @@ impl<'a> Parser<'a> {
         self.require_token(&TokenKind::LBrace)?;
 
         let mut members = vec![];
+        let enclosing_member_abstract = self.last_member_abstract;
 
         while !self.check(&TokenKind::RBrace) && !self.is_at_end() {
             // Skip empty statements
@@ -685,8 +690,14 @@ impl<'a> Parser<'a> {
                 continue;
             }
 
-            members.push(self.parse_class_member()?);
+            // `abstract` members are declarations only: they produce no method and no field
+            self.last_member_abstract = false;
+            let member = self.parse_class_member()?;
+            if !self.last_member_abstract {
+                members.push(member);
+            }
         }
+        self.last_member_abstract = enclosing_member_abstract;
 
         self.require_token(&TokenKind::RBrace)?;
 
@@ -700,20 +711,67 @@ impl<'a> Parser<'a> {
         // Parse decorators first
         let decorators = self.parse_decorators()?;
 
-        let static_ = self.match_token(&TokenKind::Static);
-
-        // Check for static initialization block: static { ... }
-        if static_ && self.check(&TokenKind::LBrace) {
-            let block = self.parse_block_statement()?;
-            return Ok(ClassMember::StaticBlock(block));
+        // Modifiers come in any order (`public static`, `protected abstract`, `static
+        // override readonly`); a modifier word directly followed by `(`, `=`, `;`, `:`,
+        // `?`, `!`, `<` or `}` is the member's own name instead.
+        let mut static_ = false;
+        let mut is_abstract = false;
+        let mut accessibility = None;
+        let mut readonly = false;
+        let mut accessor = false;
+        let mut is_declare = false;
+        loop {
+            let is_modifier_word = matches!(
+                self.current.kind,
+                TokenKind::Static
+                    | TokenKind::Abstract
+                    | TokenKind::Public
+                    | TokenKind::Private
+                    | TokenKind::Protected
+                    | TokenKind::Readonly
+                    | TokenKind::Accessor
+                    | TokenKind::Declare
+            ) || self.check_keyword("override");
+            if !is_modifier_word {
+                break;
+            }
+            if matches!(self.current.kind, TokenKind::Static) && self.peek_is(&TokenKind::LBrace) {
+                // static initialization block: static { ... }
+                self.advance();
+                let block = self.parse_block_statement()?;
+                return Ok(ClassMember::StaticBlock(block));
+            }
+            let checkpoint = self.lexer.checkpoint();
+            let next = self.lexer.next_token();
+            self.lexer.restore(checkpoint);
+            if matches!(
+                next.kind,
+                TokenKind::LParen
+                    | TokenKind::Eq
+                    | TokenKind::Semicolon
+                    | TokenKind::Colon
+                    | TokenKind::Question
+                    | TokenKind::Bang
+                    | TokenKind::Lt
+                    | TokenKind::RBrace
+            ) {
+                break;
+            }
+            match self.current.kind {
+                TokenKind::Static => static_ = true,
+                TokenKind::Abstract => is_abstract = true,
+                TokenKind::Readonly => readonly = true,
+                TokenKind::Accessor => accessor = true,
+                TokenKind::Public | TokenKind::Private | TokenKind::Protected => {
+                    accessibility = self.parse_accessibility();
+                    continue;
+                }
+                TokenKind::Declare => is_declare = true,
+                _ => {} // override: type-level only
+            }
+            self.advance();
         }
-
-        // Parse abstract modifier (TypeScript)
-        let is_abstract = self.match_token(&TokenKind::Abstract);
-
-        let accessibility = self.parse_accessibility();
-        let readonly = self.match_token(&TokenKind::Readonly);
-        let accessor = self.match_token(&TokenKind::Accessor);
+        self.last_member_abstract = is_abstract || is_declare;
 
         // Check for async method
         let is_async = self.match_token(&TokenKind::Async);
@@ -1357,7 +1415,17 @@ impl<'a> Parser<'a> {
         let mut members = vec![];
         while !self.check(&TokenKind::RBrace) && !self.is_at_end() {
             let member_start = self.current.span;
-            let member_id = self.parse_identifier()?;
+            // A member name is an identifier or a string literal ('a-b' = 1)
+            let member_id = if let TokenKind::String(s) = &self.current.kind {
+                let id = Identifier {
+                    name: s.clone(),
+                    span: self.current.span,
+                };
+                self.advance();
+                id
+            } else {
+                self.parse_identifier()?
+            };
             let initializer = if self.match_token(&TokenKind::Eq) {
                 Some(self.parse_assignment_expression()?)
             } else {
